@@ -1,4 +1,224 @@
-import TbotVerif.Props.C04
+import TbotVerif.Props.C08Mon
+/-! C08 — "Attached log streams get every read byte once, minus only the suppressed prompt".
+
+    (1) byte level: `attached_invariant` and its corollaries (`fw_prefix`, `fw_all`, `fw_literal`,
+        `fw_at_prompt`, `detach_clean`, `detach_regex`), characterisation of `Chan.overlap` in
+        `C08Overlap.lean` (`overlap_spec`, `ovl_longest`), and `reads_pass_through`: every
+        operation feeds exactly the delivered chunks, in order, through `writeStream`.
+    (2) text level: `asciiT_decodeReplace`, `asciiT_fragments` (`C08Text.lean`), `fwdFor_text`.
+    (3) case level: `case_spec_partial`; the full statement is FALSE for the model (and for the
+        code it mirrors) — `case_spec_full_is_false`. -/
+
 namespace C08
+open Chan Spec C03 ChanCase
+
+/-! ## (1) byte level, one attachment -/
+
+/-- the chunks `ds` delivered one after the other -/
+def wsAll (ds : List Bytes) (s : St) : St := ds.foldl (fun s b => writeStream b s) s
+
+theorem ssOf_wsAll (ds : List Bytes) : ∀ s : St, ssOf (wsAll ds s) = (ssOf s).writes ds := by
+  induction ds with
+  | nil => intro s; rfl
+  | cons d ds ih =>
+    intro s
+    show ssOf (wsAll ds (writeStream d s)) = _
+    rw [ih, ssOf_writeStream]; rfl
+
+/-- **every operation other than prompt configuration, attach and detach feeds exactly the chunks the
+    transport delivered during the operation, in order, through `writeStream`** (`cut` = the logs
+    are cut at the operation boundary, as `obsOp` does) -/
+theorem reads_pass_through (r : RunSt) (op : Op) (h : isReading op = true) (hc : changesPrompt op = false) :
+    ssOf (obsOp op r).2.st = (ssOf (cut r.st)).writes (delivered (obsOp op r).1)
+    ∧ (obsOp op r).1.fwd = fwdText (obsOp op r).2.st.fwd := by
+  obtain ⟨q, hq, hss⟩ := (eff r op h).ss
+  rw [hq hc] at hss
+  refine ⟨?_, rfl⟩
+  rw [hss]
+  exact SS.withPrompt_self _ _ (by rw [SS.writes_prompt]; rfl)
+
+/-- **the invariant of one attachment**: attach to any state in which nothing is attached and the
+    hold-back buffer is empty, with any mode `sp` and any prompt; after any sequence of deliveries
+    `ds`: what was appended to the forwarded log went to that stream only, and with `R` = the bytes
+    delivered and `fw` = the bytes forwarded, `HB sp prompt fw streambuf R` holds. -/
+theorem attached_invariant (s0 : St) (id : Nat) (sp : Bool) (ds : List Bytes)
+    (h0 : s0.streams = []) (hb0 : s0.streambuf = []) :
+    ∃ g : List (Nat × Bytes),
+      (wsAll ds (streamEnter id sp s0).2).fwd = s0.fwd ++ g ∧ (∀ e ∈ g, e.1 = id)
+      ∧ HB sp s0.prompt (bytesOf g) (wsAll ds (streamEnter id sp s0).2).streambuf ds.flatten
+      ∧ (wsAll ds (streamEnter id sp s0).2).streams = [id]
+      ∧ (wsAll ds (streamEnter id sp s0).2).logPrompt = sp
+      ∧ (wsAll ds (streamEnter id sp s0).2).prompt = s0.prompt := by
+  have hs : (ssOf (streamEnter id sp s0).2).streams = [id] := by
+    show s0.streams ++ [id] = [id]
+    rw [h0]; rfl
+  have hb : HB (ssOf (streamEnter id sp s0).2).logPrompt (ssOf (streamEnter id sp s0).2).prompt []
+      (ssOf (streamEnter id sp s0).2).streambuf [] := by
+    show HB sp s0.prompt [] s0.streambuf []
+    rw [hb0]; exact HB_init _ _
+  obtain ⟨g, h1, h2, h3, h4, h5, h6⟩ := HB_writes id ds (ssOf (streamEnter id sp s0).2) [] [] hs hb
+  have hss := ssOf_wsAll ds (streamEnter id sp s0).2
+  refine ⟨g, ?_, h2, ?_, ?_, ?_, ?_⟩
+  · exact (congrArg SS.fwd hss).trans h1
+  · have : (wsAll ds (streamEnter id sp s0).2).streambuf = ((ssOf (streamEnter id sp s0).2).writes ds).streambuf :=
+      congrArg SS.streambuf hss
+    rw [this]
+    have h3' : HB sp s0.prompt ([] ++ bytesOf g) ((ssOf (streamEnter id sp s0).2).writes ds).streambuf
+        ([] ++ ds.flatten) := h3
+    simpa using h3'
+  · exact (congrArg SS.streams hss).trans (h4.trans hs)
+  · exact (congrArg SS.logPrompt hss).trans h5
+  · exact (congrArg SS.prompt hss).trans h6
+
+/-- (a) the stream content is always a prefix of what was read -/
+theorem fw_prefix {lp : Bool} {prompt : Option Pat} {fw sb R : Bytes} (h : HB lp prompt fw sb R) : fw <+: R :=
+  h.prefix
+
+/-- (b) suppression off, or no prompt set: the stream holds everything -/
+theorem fw_all {lp : Bool} {prompt : Option Pat} {fw sb R : Bytes} (h : HB lp prompt fw sb R)
+    (hm : lp = true ∨ prompt = none) : fw = R ∧ sb = [] := by
+  rcases hm with rfl | rfl
+  · exact ⟨h.all_of_show, h.sb_nil_of_show⟩
+  · exact h.all_of_noprompt
+
+/-- (c) suppression on, literal prompt `p`: `R = fw ++ streambuf` and the hold-back buffer is the
+    LONGEST suffix of `R` that is a prefix of `p` -/
+theorem fw_literal {p fw sb R : Bytes} (h : HB false (some (.lit p)) fw sb R) :
+    R = fw ++ sb ∧ sb <:+ R ∧ sb <+: p ∧ (∀ t, t <:+ R → t <+: p → t.length ≤ sb.length)
+    ∧ sb.length = Chan.overlap p R (min p.length R.length) :=
+  ⟨h.lit_longest.1, h.lit_longest.2.1, h.lit_longest.2.2.1, h.lit_longest.2.2.2, h.lit_len⟩
+
+/-- (d) when `R` ends with the prompt, the stream holds exactly `R` without the prompt -/
+theorem fw_at_prompt {p fw sb R : Bytes} (h : HB false (some (.lit p)) fw sb R) (hend : p <:+ R) :
+    fw ++ p = R ∧ fw = R.take (R.length - p.length) :=
+  ⟨(h.lit_at_prompt hend).1, (h.lit_at_prompt hend).2.2⟩
+
+/-- (e) `with_stream` exit: whatever the mode and the prompt, the hold-back buffer is left empty
+    (nothing leaks into a later attachment), the stream is detached and nothing is forwarded by any
+    later delivery -/
+theorem detach_clean (s : St) (id : Nat) (prev : Bool) (fw R : Bytes) (hs : s.streams = [id])
+    (h : HB s.logPrompt s.prompt fw s.streambuf R) :
+    (streamExit id prev s).streambuf = [] ∧ (streamExit id prev s).streams = []
+    ∧ ∀ ds, wsAll ds (streamExit id prev s) = streamExit id prev s := by
+  have h2 : (streamExit id prev s).streams = [] := by
+    show s.streams.erase id = []
+    rw [hs]; simp
+  refine ⟨exitKeep_nil s fw R h, h2, ?_⟩
+  intro ds
+  induction ds with
+  | nil => rfl
+  | cons d ds ih =>
+    show wsAll ds (writeStream d (streamExit id prev s)) = _
+    have : writeStream d (streamExit id prev s) = streamExit id prev s := by
+      unfold writeStream; simp [h2]
+    rw [this, ih]
+
+/-- (f) regex prompt (always installed end-anchored): the exit flush forwards a prefix of the
+    hold-back buffer to the stream being detached; if the prompt matches the held-back bytes at
+    offset `a`, the stream has then received exactly `R` up to the match — which is the first match
+    of the prompt in all of `R` -/
+theorem detach_regex (s : St) (id : Nat) (prev : Bool) (r : Re) (fw R : Bytes) (hs : s.streams = [id])
+    (hlp : s.logPrompt = false) (hp : s.prompt = some (.re (.seq r .eos)))
+    (h : HB false (some (.re (.seq r .eos))) fw s.streambuf R) :
+    (streamExit id prev s).fwd = s.fwd ++ exitFlush s ∧ (∀ e ∈ exitFlush s, e.1 = id)
+    ∧ fw ++ bytesOf (exitFlush s) <+: R
+    ∧ (∀ a e, Re.search (.seq r .eos) s.streambuf = some (a, e) →
+        fw ++ bytesOf (exitFlush s) = R.take (fw.length + a))
+    ∧ (∀ n e, Re.search (.seq r .eos) R = some (n, e) → fw ++ bytesOf (exitFlush s) = R.take n) := by
+  refine ⟨rfl, exitFlush_ids s id hs, ?_, (exit_regex s id r fw R hs hlp hp h).1, (exit_regex s id r fw R hs hlp hp h).2⟩
+  rw [h.1]
+  exact (List.prefix_append_right_inj fw).mpr (exitFlush_prefix s id hs)
+
+/-! ## (3) whole cases -/
+
+/- FULL STATEMENT (false, see `case_spec_full_is_false`):
+
+     theorem case_spec (c : Case) (h : WfCase c) (hn : noNesting c.ops = true) :
+         Spec.C08 c (Chan.run c) = true
+
+   What is proved adds the hypothesis `promptQuiet c.ops`: while an attachment with
+   `show_prompt=False` is open the prompt in force is not changed (`ch.prompt = …`, entering or
+   leaving `with_prompt`, `read_until_prompt(prompt=…)`).  Reason: the hold-back buffer is
+   computed relative to the prompt in force at the time of each delivery and is neither flushed
+   nor re-examined when the prompt changes, see the two counterexamples below. -/
+
+/-- **C08 (whole case)**, literal and regex prompts, any number of sequential attachments. -/
+theorem case_spec_partial (c : Case) (h : WfCase c) (hn : noNesting c.ops = true)
+    (hq : promptQuiet c.ops = true) : Spec.C08 c (Chan.run c) = true := by
+  unfold Spec.C08 Chan.run
+  simp only
+  exact fold_inv c.ops (initSt c) {} (good_init c h) h.ops
+    (Inv.closed _ rfl rfl rfl ⟨fun r h => by simp [initSt] at h, fun p hp => by simp [initSt] at hp⟩) hn hq
+
+/-- the hypotheses are satisfiable by a non-trivial case: literal prompt `PQ`, suppressing
+    attachment, a read that ends inside the prompt (`P` held back), a read that completes it,
+    detach, a second attachment with suppression off and a prompt change inside it -/
+def exOk : Case :=
+  { chunk := 4, slice := 8, accept := []
+    script := [⟨0, [97, 98, 80]⟩, ⟨0, [81, 120]⟩, ⟨1, [121, 80, 81]⟩]
+    ops := [.setPrompt (some [80, 81]), .streamEnter 0 false, .read none (some 1), .rup none (some 1), .streamExit,
+            .streamEnter 1 true, .setPrompt (some [120]), .read none (some 5), .streamExit] }
+
+example : noNesting exOk.ops = true ∧ promptQuiet exOk.ops = true := by decide
+
+example : WfCase exOk :=
+  ⟨by decide, by decide, by decide, by decide⟩
+
+/-! ### why the full statement fails -/
+
+/-- (A) the prompt is cleared while `P` is held back: `_write_stream` forwards the next chunk
+    directly and the held-back byte never reaches the stream — the stream holds `ab` + `xyz` while
+    `abPxyz` was read: not a prefix. -/
+def cexA : Case :=
+  { chunk := 100, slice := 100, accept := []
+    script := [⟨0, [97, 98, 80]⟩, ⟨0, [120, 121, 122]⟩]
+    ops := [.setPrompt (some [80, 81]), .streamEnter 0 false, .read none (some 1), .setPrompt none,
+            .read none (some 1), .streamExit] }
+
+/-- (B) a regex prompt of width 3 holds back `def`; the prompt is replaced by the literal `x`
+    before detaching, so the exit drops `len(prompt)` = 1 byte and `ef` leaks into the next
+    attachment, which receives `efgh` although only `gh` was read while it was attached. -/
+def cexB : Case :=
+  { chunk := 100, slice := 100, accept := []
+    script := [⟨0, [97, 98, 99, 100, 101, 102]⟩, ⟨0, [103, 104]⟩]
+    ops := [.promptEnter (.re (.rep (.cls false [(120, 120)]) 3 3)), .streamEnter 0 false, .read none (some 1),
+            .setPrompt (some [120]), .streamExit, .streamEnter 1 false, .read none (some 1), .streamExit] }
+
+/-- (C) a per-call prompt: `read_until_prompt(prompt=<regex of width 5>)` inside a suppressing
+    attachment whose configured prompt is the literal `ab` holds back `world`; the call times out,
+    the literal prompt is back, the exit drops 2 bytes and `rld` leaks into the next attachment. -/
+def cexC : Case :=
+  { chunk := 100, slice := 100, accept := []
+    script := [⟨0, [104, 101, 108, 108, 111, 32, 119, 111, 114, 108, 100]⟩, ⟨5, [103, 104]⟩]
+    ops := [.setPrompt (some [97, 98]), .streamEnter 0 false,
+            .rup (some (.re (.rep (.cls false [(100, 100)]) 5 5))) (some 1), .streamExit,
+            .streamEnter 1 false, .read none (some 10), .streamExit] }
+
+theorem cexC_wf : WfCase cexC ∧ noNesting cexC.ops = true :=
+  ⟨⟨by decide, by decide, by decide, by decide⟩, by decide⟩
+
+theorem cexC_fails : Spec.C08 cexC (Chan.run cexC) = false := by decide +kernel
+
+theorem cexA_wf : WfCase cexA ∧ noNesting cexA.ops = true :=
+  ⟨⟨by decide, by decide, by decide, by decide⟩, by decide⟩
+
+theorem cexB_wf : WfCase cexB ∧ noNesting cexB.ops = true :=
+  ⟨⟨by decide, by decide, by decide, by decide⟩, by decide⟩
+
+theorem cexA_fails : Spec.C08 cexA (Chan.run cexA) = false := by decide +kernel
+
+theorem cexB_fails : Spec.C08 cexB (Chan.run cexB) = false := by decide +kernel
+
+/-- the statement without `promptQuiet` does not hold of the model -/
+theorem case_spec_full_is_false :
+    ¬ ∀ c : Case, WfCase c → noNesting c.ops = true → Spec.C08 c (Chan.run c) = true := by
+  intro h
+  have := h cexA cexA_wf.1 cexA_wf.2
+  rw [cexA_fails] at this
+  exact Bool.noConfusion this
+
+/-- kept only because `harness/c08.py` (`THEOREMS`) still audits this name; to be dropped when the
+    harness lists the theorems above -/
 theorem placeholder : True := trivial
+
 end C08
